@@ -16,7 +16,7 @@ SHA-1 vs. the implementation of the *current* repository):
 Oracle (independent of the model): Audit.SCHEMA, an own closure walk, field by
 field comparison with the live step ids / fresh hashDirectory / recipe data.
 """
-import asyncio, contextlib, copy, glob, gzip, hashlib, io, json, os, shutil, subprocess, sys, tarfile, time
+import asyncio, contextlib, copy, glob, gzip, hashlib, io, json, os, re, shutil, subprocess, sys, tarfile, time
 from concurrent.futures import ThreadPoolExecutor
 from vlib import coq, coqlit as L, proj, core
 
@@ -938,7 +938,11 @@ def observe(obs, pr, tag, scen, arch=None):
         fresh = st["fresh"]
         if a["variant-id"] != st["vid"]:
             obs.viol("trail-field-wrong:variant-id", "%s: recorded variant-id %s, the step has %s" % (where, a["variant-id"], st["vid"]), replay)
-        if a["result-hash"] != fresh or st["state"] != fresh:
+        if a["result-hash"] == fresh and st["state"] != fresh and os.path.islink(absws):
+            # the workspace is a link into the share store: the loser of an installation race links the winner's package and
+            # keeps the hash of its own discarded build in the project state; the trail (the store's) describes what is there
+            obs.count("real:%s:state-hash-of-discarded-build-kept-for-shared-link" % scen)
+        elif a["result-hash"] != fresh or st["state"] != fresh:
             obs.viol("trail-field-wrong:result-hash", "%s: recorded result-hash %s, state %s, hashDirectory(workspace) now %s"
                      % (where, a["result-hash"], st["state"], fresh), replay)
         if not st.get("bid_ok", True):
@@ -1217,6 +1221,55 @@ def scen_shared(obs, rng, base, want, deadline):
         observe(obs, pr2, "used", "shared")
 
 
+def shared_race(obs, base, d, tag="race"):
+    """build two checkouts of one project concurrently; the shared packages of `d` carry a rendezvous in their package
+    scripts so that both invocations have produced their own (not reproducible) result before either installs it"""
+    prs = [Project(d, os.path.join(base, nm)) for nm in ("p", "q")]
+    with ThreadPoolExecutor(max_workers=2) as tp:
+        futs = [tp.submit(pr.bob, ["dev", "r0"]) for pr in prs]
+        res = [f.result() for f in futs]
+    for pr, (rc, out) in zip(prs, res):
+        obs.count("real:shared-race:rc-%d" % rc)
+        if rc != 0:
+            obs.notes.append("shared-race: build failed: " + out[-300:])
+        else:
+            observe(obs, pr, tag, "shared-race")
+    links = [os.path.realpath(l) for pr in prs for l in glob.glob(os.path.join(pr.path, "dev", "dist", "*", "*", "workspace")) if os.path.islink(l)]
+    obs.count("real:shared-race:%s" % ("both-use-one-store-entry" if len(links) != len(set(links)) else "no-common-store-entry"))
+
+
+def scen_shared_race(obs, rng, base, want, deadline):
+    """seed C14-3: the trail next to a shared workspace must describe the content that is there also for the loser of an
+    installation race (its own build result is discarded, the winner's is linked)"""
+    n = None
+    for attempt in range(8):
+        d = strip(gen_desc(rng, rng.randint(3, 4), want))
+        d["default"]["share"] = {"path": os.path.join(base, "share")}
+        cands = [c for c, r in d["recipes"].items() if "packageScript" in r and c != "r0"]
+        rng.shuffle(cands)
+        for c in cands:             # a package of the root's tree that may be shared (deterministic)
+            d2 = copy.deepcopy(d)
+            d2["recipes"][c]["shared"] = True
+            probe = Project(d2, os.path.join(base, "probe"))
+            rc, out = probe.bob(["ls", "-r", "r0"])
+            shutil.rmtree(probe.path, ignore_errors=True)
+            if rc == 0 and any(l.strip().split("/")[-1].split()[-1:] == [c] for l in out.split("\n") if l.strip()):
+                n = c
+                break
+        if n is not None or time.time() > deadline - 20:
+            break
+    if n is None:
+        obs.count("real:shared-race:no-candidate")
+        return
+    bar = os.path.join(base, "barrier-" + n)
+    os.makedirs(bar)
+    r = d["recipes"][n]
+    r["shared"] = True
+    r["packageScript"] += ('echo "$$-$RANDOM-$(date +%%N)" > not-reproducible.txt\n: > %s/$$\n'
+                           'i=0; while [ "$(ls %s | wc -l)" -lt 2 ] && [ $i -lt 300 ]; do sleep 0.05; i=$((i+1)); done\n' % (bar, bar))
+    shared_race(obs, base, d)
+
+
 def scen_sandbox(obs, rng, base, want, deadline):
     d = strip(gen_desc(rng, 3, ("sandbox",)))
     pr = Project(d, os.path.join(base, "p"), sandbox=True)
@@ -1229,7 +1282,8 @@ def scen_sandbox(obs, rng, base, want, deadline):
 
 
 THOROUGH = False
-SCENARIOS = {"plain": scen_plain, "archive": scen_archive, "shared": scen_shared, "sandbox": scen_sandbox}
+SCENARIOS = {"plain": scen_plain, "archive": scen_archive, "shared": scen_shared, "sandbox": scen_sandbox,
+             "shared-race": scen_shared_race}
 
 
 def run_scenario(job):
@@ -1394,7 +1448,8 @@ def _run(ctx):
     budget = ctx.n(quick=80, thorough=1500)
     deadline = time.time() + budget
     jobs = []
-    order = [("plain", ("invalid-step", "deps")), ("archive", ("deps",)), ("shared", ("deps",)), ("plain", ("tools", "import")),
+    order = [("plain", ("invalid-step", "deps")), ("archive", ("deps",)), ("shared", ("deps",)), ("shared-race", ("deps",)),
+             ("plain", ("tools", "import")),
              ("sandbox", ()), ("archive", ("tools",)), ("plain", ("metaenv",)), ("shared", ("tools",))]
     reps = ctx.n(quick=1, thorough=12)
     for rep in range(reps):
@@ -1512,10 +1567,20 @@ def replay_case(ctx, obs):
         import random
         base = core.scratch_dir("c14r")
         try:
-            pr = Project(c["desc"], os.path.join(base, "p"), sandbox=c.get("sandbox", False))
-            rc, out = pr.bob(["dev", "r0"])
-            if rc == 0:
-                observe(obs, pr, "replay", c.get("scenario", "plain"))
+            if c.get("scenario") == "shared-race":
+                # the description names scratch paths of the recorded run (share store, rendezvous directory): re-home them
+                txt = json.dumps(c["desc"])
+                old_base = os.path.dirname(c["desc"]["default"]["share"]["path"])
+                d = json.loads(txt.replace(old_base, base))
+                for r in d["recipes"].values():
+                    for bdir in re.findall(r": > (\S+)/\$\$", r.get("packageScript", "")):
+                        os.makedirs(bdir, exist_ok=True)
+                shared_race(obs, base, d, "replay")
+            else:
+                pr = Project(c["desc"], os.path.join(base, "p"), sandbox=c.get("sandbox", False))
+                rc, out = pr.bob(["dev", "r0"])
+                if rc == 0:
+                    observe(obs, pr, "replay", c.get("scenario", "plain"))
         finally:
             shutil.rmtree(base, ignore_errors=True)
     elif "record" in c:
